@@ -531,6 +531,7 @@ type hnode struct {
 	*node
 	first uint64
 	ids   []int
+	bad   uint64 // index at which this node holds the entry that was altered in flight (0: none)
 }
 
 func (h *hnode) last() uint64 { return h.first + uint64(len(h.ids)) - 1 }
@@ -544,7 +545,10 @@ func (h *hnode) id(i uint64) int {
 // syncTo makes y's log equal to x's the way raft replication does: y drops the
 // suffix that conflicts with x's log (DeleteRange), then stores x's entries from
 // there on, exactly as x's store returns them (a checkpoint carries x's metadata).
-func syncTo(x, y *hnode) {
+func syncTo(x, y *hnode) { syncToM(x, y, nil) }
+
+// syncToM: mutate, if not nil, may alter one of the entries on their way to y.
+func syncToM(x, y *hnode, mutate func(l *raft.Log) bool) {
 	s := x.first
 	if y.first > s {
 		s = y.first
@@ -559,6 +563,9 @@ func syncTo(x, y *hnode) {
 	if k <= y.last() {
 		vrt.Assert("C16.history.follower-delete-ok", y.ls.DeleteRange(k, y.last()) == nil)
 		y.ids = y.ids[:k-y.first]
+		if y.bad >= k {
+			y.bad = 0
+		}
 	}
 	if k > x.last() {
 		return
@@ -567,6 +574,11 @@ func syncTo(x, y *hnode) {
 	for i := k; i <= x.last(); i++ {
 		l := new(raft.Log)
 		vrt.Assert("C16.history.leader-read-ok", x.mem.GetLog(i, l) == nil)
+		if x.bad == i {
+			y.bad = i // the leader's own copy is the altered one: the follower gets the same bytes
+		} else if mutate != nil && y.bad == 0 && mutate(l) {
+			y.bad = i
+		}
 		batch = append(batch, l)
 	}
 	if len(y.ids) == 0 {
@@ -605,6 +617,24 @@ func HarnessHistory() {
 		serial++
 		x.ids = append(x.ids, serial)
 	}
+	// mutate=1 (C17, first sentence, over histories): at most once, one replicated non-checkpoint
+	// entry is altered on its way to the follower (one Data byte takes another value). Every
+	// later report of that node for a range that holds the altered entry, and that the node
+	// did verify (no ErrRangeMismatch), must carry ErrChecksumMismatch.
+	mutation := vrt.Param("mutate", 0) == 1
+	mutated := false
+	mutate := func(l *raft.Log) bool {
+		if !mutation || mutated || l.Type == raft.LogNoop || vrt.Choice("alter-in-flight", 2) == 0 {
+			return false
+		}
+		nb := vrt.U8("h.newbyte")
+		vrt.Assume(nb != l.Data[0])
+		l.Data = []byte{nb}
+		mutated = true
+		vrt.Reach("history-altered-in-flight")
+		return true
+	}
+	cpWriter := map[uint64]int{} // checkpoint index -> the node that wrote it (as of the latest write at that index)
 	seen := [2]int{}
 	checkReports := func() {
 		vrt.Quiesce()
@@ -612,6 +642,17 @@ func HarnessHistory() {
 			h := N[n]
 			for ; seen[n] < len(h.reports); seen[n]++ {
 				r := &h.reports[seen[n]]
+				// the node's copy of the range differs from what the checkpoint's writer summed iff
+				// exactly one of the two holds the altered entry inside the range
+				w := N[cpWriter[r.Range.End]]
+				in := func(x *hnode) bool { return x.bad != 0 && r.Range.Start <= x.bad && x.bad < r.Range.End }
+				if in(h) != in(w) {
+					if r.Err != verifier.ErrRangeMismatch {
+						vrt.Assert("C17.history.divergence-detected", isMismatch(r.Err))
+						vrt.Reach("history-divergence-reported")
+					}
+					continue
+				}
 				vrt.Assert("C16.history.no-false-mismatch", !isMismatch(r.Err))
 				vrt.Assert("C17.history.in-flight-blamed-only-when-written-differs", r.Err == nil || !strings.Contains(r.Err.Error(), "in-flight"))
 				if r.Range.Start < h.first {
@@ -633,11 +674,12 @@ func HarnessHistory() {
 		case op < 4: // x appends an entry as leader
 			appendTo(x, mk(x.last()+1))
 			if op&2 != 0 {
-				syncTo(x, y)
+				syncToM(x, y, mutate)
 			}
 		case op < 6: // x appends a checkpoint as leader, replicated
+			cpWriter[x.last()+1] = op & 1
 			appendTo(x, cpEntry(x.last()+1, 5))
-			syncTo(x, y)
+			syncToM(x, y, mutate)
 			checkReports()
 			vrt.Reach("history-checkpoint")
 		case op < 8:
@@ -647,6 +689,9 @@ func HarnessHistory() {
 				vrt.Assert("C16.history.compact-ok", x.ls.DeleteRange(x.first, x.first) == nil)
 				x.first++
 				x.ids = x.ids[1:]
+				if x.bad != 0 && x.bad < x.first {
+					x.bad = 0
+				}
 			}
 		}
 	}
